@@ -44,8 +44,11 @@ structure Site where
   name : Name
   /-- label names of the tags passed, sorted -/
   labelNames : List Name
-  /-- labels whose VALUE is run-time data (not a constant, not a formatted bool / integer) -/
+  /-- labels whose VALUE is unsanitised run-time data (not a constant, not a formatted bool / integer, not
+  wrapped in strings.ToValidUTF8) -/
   dynamicLabels : List Name
+  /-- labels whose run-time value is passed through strings.ToValidUTF8 (valid UTF-8 by construction) -/
+  sanitisedLabels : List Name
   /-- the call passes a `tags...` slice (its contents were resolved statically) -/
   spreads : Bool
   /-- "direct", or the callers through which name / labels were resolved -/
@@ -175,10 +178,11 @@ def replay (global : List Name) : Registry → List Emission → List String
 
 /-- an emission given by kind / name / labels only (differential runs) -/
 def mkEmission (k : Kind) (name : Name) (labels : List Name) (valuesValid : Bool) : Emission :=
-  ⟨⟨"", 0, k, name, labels, [], false, "", ""⟩, valuesValid⟩
+  ⟨⟨"", 0, k, name, labels, [], [], false, "", ""⟩, valuesValid⟩
 
 /-- An emission the program can perform: it executes a site of the table, and where every label value
-of the site is static (a UTF-8 constant or a formatted bool / integer — checked by the extractor) the
+of the site is static or sanitised (a UTF-8 constant, a formatted bool / integer, or wrapped in
+strings.ToValidUTF8 — classified by the extractor) the
 values are valid. Nothing is assumed about run-time label data. -/
 def Admissible (sites : List Site) (e : Emission) : Prop :=
   e.site ∈ sites ∧ (e.site.dynamicLabels = [] → e.valuesValid = true)
